@@ -19,6 +19,12 @@ def gen_stack(rng, tier):
     for _ in range(reps):
         for what in ("close", "connectfail", "bindclose", "none"):
             cases.append(["bystander %s %s %d" % (rng.choice(["tcp", "tcp", "ipc"]), what, rng.choice([100, 200, 400]))])
+    # an ESTABLISHED connection is lost and the peer comes back on the same address: the socket - connect-only, or also
+    # owning a listener of its own - reconnects by itself
+    for _ in range(reps):
+        for tr in ("tcp", "ipc"):
+            for bind_too in (0, 1):
+                cases.append(["comeback %s %d %d" % (tr, bind_too, rng.choice([100, 200]))])
     # retries never come faster than RECONNECT_IVL, however busy the rest of the context is
     for _ in range(reps):
         cases.append(["!retrypace %d 1 %d" % (rng.choice([150, 300]), 1500)])
@@ -30,7 +36,7 @@ SPEC = {
     "components": [{"comp": "routing", "gen": gen, "oracle": R.backoff_oracle, "label": "backoff",
                     "nontrivial": lambda c, i: len(set(i)) > 1, "dist": lambda cs: {"cases": len(cs)}},
                    {"comp": "stack", "gen": gen_stack, "label": "stack-faultlocal",
-                    "nontrivial": lambda c, i: any("healthy" in l or l in ("bystander=ok", "retrypace=ok") for l in i), "dist": lambda cs: {"cases": len(cs)}}],
+                    "nontrivial": lambda c, i: any("healthy" in l or l in ("bystander=ok", "retrypace=ok", "comeback=ok") for l in i), "dist": lambda cs: {"cases": len(cs)}}],
     "search": lambda rng, tier: [("routing", gen(rng, tier), R.backoff_oracle), ("stack", gen_stack(rng, "quick"), None, False)],
     "rule": "stack: a healthy PUSH->PULL pair exchanges traffic before and after a fault injected on ANOTHER connection of the same PULL "
             "socket (wrong socket type over inproc/tcp/ipc, garbage bytes, reset, half a greeting then silence, valid handshake then "
